@@ -32,7 +32,13 @@ import (
 //	v/n/           dir
 //	v/n/n          file  "in-vnn"
 //	v/x            file  "in-vx"  (outside for depth-2 views rooted at v/n)
-var storeFiles = map[string]string{"n": "CANARY-top-n", "outdir/o.txt": "CANARY-o", "v/n/n": "in-vnn", "v/x": "in-vx"}
+//	.v/n/n, .v/x   a second view root whose name differs from "v" by a leading dot only
+var storeFiles = map[string]string{"n": "CANARY-top-n", "outdir/o.txt": "CANARY-o", "v/n/n": "in-vnn", "v/x": "in-vx", ".v/n/n": "in-dotv-nn", ".v/x": "in-dotv-x"}
+
+// storeDirs: an EMPTY directory inside a directory that holds nothing else - the root of the "empty view"
+// kinds (whatever tidies up after a failed operation inside such a view finds only empty directories
+// on its way up).
+var storeDirs = []string{"w/e"}
 
 type viewKind struct {
 	Name string
@@ -73,6 +79,9 @@ func newEnv(disk bool) (*env, func(), error) {
 				return nil, nil, err
 			}
 		}
+		for _, dd := range storeDirs {
+			os.MkdirAll(filepath.Join(e.hostDir, dd), 0777)
+		}
 		// a canary next to the store itself
 		os.WriteFile(filepath.Join(d, "host-canary.txt"), []byte("CANARY-host"), 0644)
 		if e.disk, err = diskfs.NewFilespace(e.hostDir); err != nil {
@@ -85,6 +94,9 @@ func newEnv(disk bool) (*env, func(), error) {
 		if err := e.mem.WriteFile(p, []byte(c), 0644); err != nil {
 			return nil, nil, err
 		}
+	}
+	for _, dd := range storeDirs {
+		e.mem.MkdirAll(dd, 0777)
 	}
 	return e, func() {}, nil
 }
@@ -115,6 +127,10 @@ func views() []viewKind {
 	add("disk-root", "v", true, func(e *env) (filesystem.Filespace, error) { return diskfs.NewFilespace(filepath.Join(e.hostDir, "v")) })
 	add("disk-child", "v", true, func(e *env) (filesystem.Filespace, error) { return chain(e.disk, "v") })
 	add("disk-child-of-child", "v/n", true, func(e *env) (filesystem.Filespace, error) { return chain(e.disk, "v", "n") })
+	// views whose root is an empty directory inside an otherwise empty directory
+	add("memfs-child-empty", "w/e", false, func(e *env) (filesystem.Filespace, error) { return chain(e.mem, "w", "e") })
+	add("disk-root-empty", "w/e", true, func(e *env) (filesystem.Filespace, error) { return diskfs.NewFilespace(filepath.Join(e.hostDir, "w", "e")) })
+	add("disk-child-empty", "w/e", true, func(e *env) (filesystem.Filespace, error) { return chain(e.disk, "w/e") })
 	add("encrypted-over-memfs-child", "v", false, func(e *env) (filesystem.Filespace, error) {
 		c, err := chain(e.mem, "v")
 		if err != nil {
@@ -188,6 +204,11 @@ func views() []viewKind {
 	add("child-of-readonly", "v", false, func(e *env) (filesystem.Filespace, error) { return chain(ro(e, e.mem), "v") })
 	add("child-of-child-of-readonly", "v/n", false, func(e *env) (filesystem.Filespace, error) { return chain(ro(e, e.mem), "v", "n") })
 	add("child-of-readonly-disk", "v", true, func(e *env) (filesystem.Filespace, error) { return chain(ro(e, e.disk), "v") })
+	// view roots with a dot-prefixed name (".v" next to "v")
+	add("memfs-child-dotname", ".v", false, func(e *env) (filesystem.Filespace, error) { return chain(e.mem, ".v") })
+	add("disk-child-dotname", ".v", true, func(e *env) (filesystem.Filespace, error) { return chain(e.disk, ".v") })
+	add("subfs-dotname", ".v", false, func(e *env) (filesystem.Filespace, error) { return fshelper.NewSubFS(e.mem, ".v"), nil })
+	add("subfs-of-subfs-dotname", ".v/n", false, func(e *env) (filesystem.Filespace, error) { return chain(fshelper.NewSubFS(e.mem, ".v"), "n") })
 	add("subfs-over-memfs", "v", false, func(e *env) (filesystem.Filespace, error) { return fshelper.NewSubFS(e.mem, "v"), nil })
 	add("subfs-of-subfs", "v/n", false, func(e *env) (filesystem.Filespace, error) { return chain(fshelper.NewSubFS(e.mem, "v"), "n") })
 	add("subfs-over-disk", "v", true, func(e *env) (filesystem.Filespace, error) { return fshelper.NewSubFS(e.disk, "v"), nil })
